@@ -1135,3 +1135,100 @@ def rule_optional_container_truthiness(check, rule):
                         n += 1
                         check.holds(rule, site_of(meth, node), '`%s` tests the reference itself' % norm(node), key='%s|identity|%s' % (meth.key, norm(node)))
     check.floor(rule, 'tests of optional container-valued attributes', n, 1)
+
+
+NULLABLE_LIST_FIELDS = ('kw_defaults', 'keys')      # arguments.kw_defaults and Dict.keys hold None entries (ast documentation)
+
+
+def rule_visit_nullable(check, rule):
+    """C07.R9: `ast.arguments.kw_defaults` (and `ast.Dict.keys`) are lists with None entries -- one per keyword-only
+    parameter without default / per `**mapping` item.  NodeVisitor.visit(None) raises AttributeError, which leaves
+    sigtools.signature() for every function containing such a nested def/lambda.  Any loop of the visitor that draws
+    nodes from such a field must skip None before visiting.  Zero-expected on the pinned tree (the visitor does not look
+    at defaults); the self-test keeps a positive example."""
+    repo = check.repo
+    vis = repo.cls(VIS.split(':')[0] + ':' + VIS.split(':')[1])
+    n = 0
+    for m in vis.methods.values():
+        for loop in [x for x in ast.walk(m.node) if isinstance(x, (ast.For, ast.comprehension))]:
+            it = loop.iter
+            fields = [a.attr for a in ast.walk(it) if isinstance(a, ast.Attribute) and a.attr in NULLABLE_LIST_FIELDS]
+            if not fields:
+                continue
+            tgt = loop.target.id if isinstance(loop.target, ast.Name) else None
+            body = loop.body if isinstance(loop, ast.For) else [getattr(loop, '_parent', None)]
+            visits = [c for b in body if b is not None for c in ast.walk(b) if isinstance(c, ast.Call) and isinstance(c.func, ast.Attribute)
+                      and c.func.attr in ('visit', 'generic_visit') and c.args and isinstance(c.args[0], ast.Name) and c.args[0].id == tgt]
+            if not visits:
+                continue
+            n += 1
+            guarded = False
+            for v in visits:
+                t = v
+                while t is not None and t is not m.node:
+                    par = getattr(t, '_parent', None)
+                    if isinstance(par, ast.If) and t in par.body and tgt in norm(par.test):
+                        guarded = True
+                    t = par
+            if isinstance(loop, ast.comprehension) and any(tgt in norm(i_) for i_ in loop.ifs):
+                guarded = True
+            key = '%s|visit-nullable|%s' % (m.key, ','.join(fields))
+            if guarded:
+                check.holds(rule, site_of(m, loop.iter), 'nodes drawn from %s are tested before being visited' % '/'.join(fields), key=key)
+            else:
+                check.violation(rule, site_of(m, loop.iter), 'nodes drawn from %s are visited without skipping the None entries that field holds (a '
+                                'keyword-only parameter without default / a **mapping item): visit(None) raises AttributeError out of retrieval'
+                                % '/'.join(fields), key=key, witness='def f(*a, **k):\n    def g(*, key): ...\n    return h(*a, **k)')
+    if not n:
+        check.holds(rule, site_of(vis.methods['__init__'], vis.node), 'the visitor never iterates kw_defaults / Dict.keys itself', key='visit-nullable|none',
+                    nontrivial=False)
+
+
+DEF_TIME_FIELDS = ('decorator_list', 'defaults', 'kw_defaults')
+
+
+def rule_definition_time_expressions(check, rule):
+    """C05.R3b: a handler for def / async def / lambda that does not continue the generic traversal cuts it above the
+    expressions Python evaluates *in the enclosing scope when the definition executes*: decorators and default values
+    (grammar: FunctionDef.decorator_list, arguments.defaults, arguments.kw_defaults).  They can alter or hand on the
+    enclosing function's *args/**kwargs before the forwarding call, so the handler has to visit them before it pushes the
+    nested namespace."""
+    vf = VisitorFacts(check.repo)
+    done = set()
+    for cname in ('FunctionDef', 'AsyncFunctionDef', 'Lambda'):
+        h = vf.handler(cname)
+        if h is None or h.key in done:
+            continue
+        done.add(h.key)
+        check.analysed(h)
+        if vf.continues_traversal(h) and not vf.pushes_namespace(h):
+            check.holds(rule, site_of(h, h.node), 'visit_%s keeps traversing generically' % cname, key='deftime|%s' % h.name)
+            continue
+        # position of the namespace push
+        push = None
+        for i, st_ in enumerate(h.node.body):
+            if any(isinstance(n, ast.Assign) and any(norm(t).endswith('.namespace') for t in n.targets) and isinstance(n.value, ast.Call)
+                   for n in ast.walk(st_)):
+                push = i
+                break
+        for field in DEF_TIME_FIELDS:
+            key = 'deftime|%s|%s' % (h.name, field)
+            visited_at = None
+            for i, st_ in enumerate(h.node.body):
+                for n in ast.walk(st_):
+                    if isinstance(n, (ast.For, ast.comprehension)) and any(isinstance(a, (ast.Attribute, ast.Constant)) and
+                                                                           (getattr(a, 'attr', None) == field or getattr(a, 'value', None) == field)
+                                                                           for a in ast.walk(n.iter)):
+                        body_ = n.body if isinstance(n, ast.For) else [getattr(n, '_parent', None)]
+                        if any(isinstance(c, ast.Call) and isinstance(c.func, ast.Attribute) and c.func.attr == 'visit'
+                               for b in body_ if b is not None for c in ast.walk(b)):
+                            visited_at = i if visited_at is None else min(visited_at, i)
+            if visited_at is None:
+                check.violation(rule, site_of(h, h.node), '%s never visits %s of a nested definition: those expressions run in the enclosing scope '
+                                'when the def/lambda is executed, and what they do to *args/**kwargs goes unnoticed' % (h.name, field), key=key,
+                                witness="def f(**kwargs):\n    def g(a=kwargs.pop('z')): ...\n    return inner(1, 2, **kwargs)   # still advertises z")
+            elif push is not None and visited_at > push:
+                check.violation(rule, site_of(h, h.node.body[visited_at]), '%s visits %s after pushing the nested namespace: they are evaluated in the '
+                                'enclosing scope' % (h.name, field), key=key)
+            else:
+                check.holds(rule, site_of(h, h.node.body[visited_at]), '%s visits %s in the enclosing scope' % (h.name, field), key=key)
